@@ -314,6 +314,30 @@ Theorem cache_take_held_answers_as_reference : forall limit pre k f inner,
 Proof. exact take_held_answers_as_reference_proof. Qed.
 Print Assumptions cache_take_held_answers_as_reference.
 
+(* ... and with the cache's timing wheel in the picture (ModelW: cache + C12's wheel), for every
+   limit, wheel size, interval, expiry d: the operations run while the loader of k is parked may
+   include TICKS - other entries expire, the wheel's callbacks delete them - and still every
+   observation and the final state, k's timer included (armed when the loader returns), are
+   those of "inner, then Take k" *)
+Theorem cachew_take_held_is_take_after : forall s k f d inner,
+  alookup k (cdata (cwc s)) = None ->
+  Forall (xop_avoids k) inner ->
+  let '(s', r, rs) := cw_take_held s k f d inner in
+  cw_run s (inner ++ [XTake k f d]) = rs ++ [r] /\ cw_final s (inner ++ [XTake k f d]) = s'.
+Proof. exact cw_take_held_is_take_after_proof. Qed.
+Print Assumptions cachew_take_held_is_take_after.
+
+(* non-vacuity: key 257 (one tick to live) expires while the loader of key 1 is parked; key 1 is
+   stored afterwards and lives its own 2 ticks *)
+Example ex_cachew_take_held :
+  let s := cw_final (cw_new 0 300 1000 false) [XSet 257 7 1500] in
+  let inner := [XTick; XGet 257] in
+  alookup 1 (cdata (cwc s)) = None /\ Forall (xop_avoids 1) inner /\
+  snd (cw_take_held s 1 (Some 10) 2500 inner) = [OUnit; OOpt None] /\
+  cw_run (fst (fst (cw_take_held s 1 (Some 10) 2500 inner))) [XGet 1; XTick; XGet 1; XTick; XGet 1] =
+    [OOpt (Some 10); OUnit; OOpt (Some 10); OUnit; OOpt None].
+Proof. vm_compute. repeat split; repeat constructor; discriminate. Qed.
+
 (* non-vacuity: limit 2, keys 2 and 3 held; Take 1 parked in its loader while key 257 is written
    (evicting 2) and deleted again and 3 is read; then 1 is stored: held = {1, 3}, no reload *)
 Example ex_take_held :
